@@ -77,7 +77,8 @@ func (c S3ApiController) ListBuckets(ctx *fiber.Ctx) error {
 	var maxBuckets int32 = 10000
 	if maxBucketsStr != "" {
 		maxBucketsParsed, err := strconv.ParseInt(maxBucketsStr, 10, 32)
-		if err != nil || maxBucketsParsed < 0 || maxBucketsParsed > 10000 {
+		// valid range is 1..10000 (a page of zero buckets can never make progress)
+		if err != nil || maxBucketsParsed < 1 || maxBucketsParsed > 10000 {
 			if c.debug {
 				debuglogger.Logf("error parsing max-buckets %q: %v", maxBucketsStr, err)
 			}
